@@ -3,7 +3,7 @@
 //! This module defines the [`LogitsFilter`] trait implemented by all filters,
 //! plus convenience functions to simplify implementing filters.
 
-use rten_simd::ops::{BitOps, MaskOps, NumOps};
+use rten_simd::ops::{BitOps, IntOps, MaskOps, NumOps};
 use rten_simd::{Isa, Simd, SimdIterable, SimdOp};
 use rten_vecmath::Softmax;
 
@@ -176,8 +176,19 @@ impl<'a> SimdOp for SimdTopK<'a> {
         let SimdTopK { logits, indices, k } = self;
 
         let ops = isa.f32();
+        let int_ops = isa.i32();
         let mask_ops = isa.m32();
         let compare_gt = |a: f32, b: f32| a.total_cmp(&b).reverse();
+
+        // Map floats to integers that have the same ordering as
+        // `f32::total_cmp`. This keeps the vectorized pre-check consistent
+        // with the ordering used to sort the top-K list, including for NaNs
+        // and signed zeros.
+        let total_order_key = |x: I::F32| -> I::I32 {
+            let bits: I::I32 = x.reinterpret_cast();
+            let flip = int_ops.and(int_ops.shift_right::<31>(bits), int_ops.splat(i32::MAX));
+            int_ops.xor(bits, flip)
+        };
 
         // Create an initial sorted top-K list from the first K entries.
         let mut topk: Vec<(u32, f32)> = indices
@@ -193,10 +204,10 @@ impl<'a> SimdOp for SimdTopK<'a> {
         }
 
         let mut kth_logit = topk.last().unwrap().1;
-        let mut kth_logit_vec = ops.splat(kth_logit);
+        let mut kth_key_vec = total_order_key(ops.splat(kth_logit));
 
         let mut update_topk = |kth_logit: &mut f32, index: u32, logit: f32| {
-            if logit > *kth_logit {
+            if logit.total_cmp(kth_logit).is_gt() {
                 *topk.last_mut().unwrap() = (index, logit);
                 topk.sort_by(|a, b| compare_gt(a.1, b.1));
                 *kth_logit = topk.last().unwrap().1;
@@ -211,11 +222,11 @@ impl<'a> SimdOp for SimdTopK<'a> {
         let mut indices_iter = indices.chunks_exact(ops.len());
         let mut logits_iter = logits.simd_iter(ops);
         for (index_chunk, logits_vec) in indices_iter.by_ref().zip(logits_iter.by_ref()) {
-            if mask_ops.any(ops.gt(logits_vec, kth_logit_vec)) {
+            if mask_ops.any(int_ops.gt(total_order_key(logits_vec), kth_key_vec)) {
                 for (&index, logit) in index_chunk.iter().zip(logits_vec.to_array()) {
                     update_topk(&mut kth_logit, index, logit);
                 }
-                kth_logit_vec = ops.splat(kth_logit);
+                kth_key_vec = total_order_key(ops.splat(kth_logit));
             }
         }
 
